@@ -76,7 +76,10 @@ class UnionSpecifier(VersionSpecifier):
                 == {0}
             ):
                 epoch = "" if left.max.epoch == 0 else f"{left.max.epoch}!"
-                version = ".".join(map(str, left.max.release[:first_different])) + ".*"
+                # take the prefix from the zero-padded release: left.max may be
+                # written with fewer segments than the position that differs
+                prefix = left_stable[1 : first_different + 1]
+                version = ".".join(map(str, prefix)) + ".*"
                 return f"!={epoch}{version}"
 
         return None
